@@ -91,7 +91,7 @@ _GEN = ("TLC checks the property's declarative meaning (spec/Semantics.tla) as a
         "and ndjson traces recorded from the real crate, including the complete transition table of each built "
         "automaton obtained through the implementation's own child/next-state functions, are validated by TLC "
         "against the same specification. ")
-LEVEL_TEXT = {p: _GEN + TITLES[p] for p in TITLES}
+LEVEL_NOTE = {p: _COMMON_NOTE for p in TITLES}
 _SPECIFIC = {
     "C01": "Decided by: P-ov (MC_Search: all pattern sequences <= 2-3 over {0,1}, all haystacks <= 5-6), the window form (MC_Window: haystacks of every length), the double-array layout with 4-slot blocks and evictions (MC_DoubleArray: Encodes, Sim); replay of every behaviour of that scope; table validation (trie edges for all 256 bytes / all codes, transition function, fail links, output chains) of every recorded automaton, which makes the claim hold for all haystacks of those automata.",
     "C02": "Decided by: P-std (MC_Search), EmitOK in the window form (every haystack length); replay; recorded find_iter / find_iter_from_iter runs compared with the model and the declarative meaning; table validation.",
@@ -118,7 +118,6 @@ LEVEL_TEXT["C16"] = ("TLC checks spec/Daacfind.tla (line filter through the mode
                      "pattern occurs in it; highlighted bytes = union of all occurrences) for all small pattern lists "
                      "and lines; recorded invocations of the real binary built from /repo (flags, -p/-f, stdin/files, "
                      "SGR-parsed stdout, exit status) are validated by TLC against spec/TraceCli.tla.")
-LEVEL_NOTE = {p: _COMMON_NOTE for p in TITLES}
 TECHNIQUE = {p: "TLA+ specification model-checked with TLC + trace validation of the implementation (code->spec) "
                 "+ replay of TLC-generated behaviours (spec->code)" for p in TITLES}
 DESIGN_REF = {p: "DESIGN.md section 6 (%s)" % p for p in TITLES}
